@@ -6,14 +6,15 @@ import shutil
 import tempfile
 
 
-def _mk(kind, sigs, ks, tmp):
+def _mk(kind, sigs, ks, tmp, dt=None):
+	"""a collection of the given kind whose STORED integer type is dt (not necessarily the k-mer spec's default)"""
 	from gambit.sigs import SignatureArray, SignatureList, dump_signatures, load_signatures
 	if kind == 'list':
-		return SignatureList(sigs, ks)
+		return SignatureList(sigs, ks, dtype=dt)
 	if kind == 'array':
-		return SignatureArray(sigs, ks)
+		return SignatureArray(sigs, ks, dtype=dt)
 	p = os.path.join(tmp, f'c{random.random()}.gs')
-	dump_signatures(p, SignatureArray(sigs, ks))
+	dump_signatures(p, SignatureArray(sigs, ks, dtype=dt))
 	return load_signatures(p)
 
 
@@ -74,14 +75,14 @@ def run_case(case):
 	from gambit.sigs.base import sigarray_eq
 	rnd = random.Random(case.get('seed', 0))
 	ks = KmerSpec(case.get('k', 3), 'AT')
-	dt = ks.index_dtype
+	dt = np.dtype(case.get('dtype') or ks.index_dtype)
 	n = case['n']
 	plain = [np.array(sorted(rnd.sample(range(4 ** ks.k), rnd.randrange(0, 6))), dtype=dt) for _ in range(n)]
 	tmp = tempfile.mkdtemp(prefix='c20_')
 	try:
 		kind = case['kind']
 		if kind == 'index':
-			coll = _mk(case['coll'], plain, ks, tmp)
+			coll = _mk(case['coll'], plain, ks, tmp, dt)
 			index = _index_from(case['index'])
 			keep = index.copy() if isinstance(index, np.ndarray) else None
 			exp = _expected(plain, index)
@@ -110,7 +111,9 @@ def run_case(case):
 			return {'ok': bool(ok and ok_meta), 'expected': show(exp), 'actual': show(act) if act[0] in ('ok', 'one', 'err') else act}
 		if kind == 'indexgrid':
 			# the complete grid of slices on ONE collection object (every start/stop/step combination, forwards and backwards)
-			coll = _mk(case['coll'], plain, ks, tmp)
+			coll = _mk(case['coll'], plain, ks, tmp, dt)
+			if np.dtype(coll.dtype) != dt:
+				return {'ok': False, 'expected': f'collection dtype {dt}', 'actual': str(coll.dtype)}
 			rng = [None, 0, 1, -1, 2, -2, 3, n - 1, n, -n, n + 1, -n - 1, 7]
 			steps = [None, 1, 2, -1, -2, 3, -3, n or 1, -(n or 1), 7, -7]
 			cnt = 0
@@ -119,9 +122,26 @@ def run_case(case):
 				exp = plain[slice(a, b, c)]
 				got = [np.asarray(x) for x in res]
 				cnt += 1
-				if len(got) != len(exp) or not all(np.array_equal(p_, q_) for p_, q_ in zip(exp, got)) or res.kmerspec != ks or len(res) != len(exp):
-					return {'ok': False, 'expected': {'slice': [a, b, c], 'items': [x.tolist() for x in exp][:6]}, 'actual': [x.tolist() for x in got][:6]}
+				if len(got) != len(exp) or not all(np.array_equal(p_, q_) for p_, q_ in zip(exp, got)) or res.kmerspec != ks or len(res) != len(exp) \
+						or np.dtype(res.dtype) != dt or not all(x.dtype == dt for x in got):
+					return {'ok': False, 'expected': {'slice': [a, b, c], 'dtype': str(dt), 'items': [x.tolist() for x in exp][:6]}, 'actual': {'dtype': str(res.dtype), 'items': [x.tolist() for x in got][:6]}}
 			return {'ok': True, 'expected': f'{cnt} slices like a list', 'actual': 'ok'}
+		if kind == 'indexlists':
+			# EVERY index list of length <= 4 over one collection object (any order, repeats), as list and as int64 / int16 array
+			coll = _mk(case['coll'], plain, ks, tmp, dt)
+			cnt = 0
+			for m in range(0, 5):
+				for tup in itertools.product(range(n), repeat=m):
+					variants = [list(tup), np.array(tup, dtype='i8')] + ([np.array([t - n if (k + cnt) % 2 else t for k, t in enumerate(tup)], dtype='i2')] if m else [])
+					for index in variants:
+						res = coll[index]
+						exp = [plain[int(t)] for t in index]
+						got = [np.asarray(x) for x in res]
+						cnt += 1
+						if len(got) != len(exp) or not all(np.array_equal(p_, q_) for p_, q_ in zip(exp, got)) or res.kmerspec != ks or np.dtype(res.dtype) != dt:
+							return {'ok': False, 'expected': {'index': [int(t) for t in index], 'dtype': str(dt), 'items': [x.tolist() for x in exp][:6]},
+							        'actual': {'dtype': str(res.dtype), 'items': [x.tolist() for x in got][:6]}}
+			return {'ok': True, 'expected': f'{cnt} index lists like a list', 'actual': 'ok'}
 		if kind == 'mutate':
 			sl = SignatureList(list(plain), ks)
 			ref = list(plain)
@@ -224,12 +244,24 @@ def cases(tier, seed):
 			yield {'kind': 'index', 'coll': coll, 'n': n, 'index': {'t': 'array', 'v': [0.0], 'dt': 'f8'}}
 			for _ in range(12 if tier == 'quick' else 80):
 				m = rnd.randrange(0, 6)
-				yield {'kind': 'index', 'coll': coll, 'n': n, 'index': {'t': rnd.choice(['list', 'array']), 'dt': rnd.choice(['i1', 'i2', 'i4', 'i8', 'u1', 'u8']),
+				yield {'kind': 'index', 'coll': coll, 'n': n, 'dtype': rnd.choice([None, 'u8', 'i4']), 'index': {'t': rnd.choice(['list', 'array']), 'dt': rnd.choice(['i1', 'i2', 'i4', 'i8', 'u1', 'u8']),
 				       'v': [rnd.randrange(-n - 1, n + 1) if rnd.random() < .9 else rnd.randrange(0, n + 2) for _ in range(m)]}}
-				yield {'kind': 'index', 'coll': coll, 'n': n, 'index': {'t': 'array', 'dt': 'bool', 'v': [rnd.random() < .5 for _ in range(rnd.choice([n, n, n + 1, max(n - 1, 0)]))]}}
+				yield {'kind': 'index', 'coll': coll, 'n': n, 'dtype': rnd.choice([None, 'u8']), 'index': {'t': 'array', 'dt': 'bool', 'v': [rnd.random() < .5 for _ in range(rnd.choice([n, n, n + 1, max(n - 1, 0)]))]}}
 	for n in (0, 1, 2, 4, 5, 6):
 		for coll in colls:
-			yield {'kind': 'indexgrid', 'coll': coll, 'n': n, 'seed': n}
+			# stored integer type: the k-mer spec's default and wider / signed ones
+			yield {'kind': 'indexgrid', 'coll': coll, 'n': n, 'seed': n, 'dtype': [None, 'u8', 'i4', 'u2'][(n + len(coll)) % 4]}
+			if n in (2, 5):
+				yield {'kind': 'indexgrid', 'coll': coll, 'n': n, 'seed': n, 'dtype': 'u8'}
+	# every integer dtype (incl. uint64, whose arithmetic with Python ints is promoted to float) as index array and as scalar
+	for coll in colls:
+		for dtn in ('i1', 'i2', 'i4', 'i8', 'u1', 'u2', 'u4', 'u8'):
+			for v in ([0], [3, 0, 3], [2]):
+				yield {'kind': 'index', 'coll': coll, 'n': 4, 'index': {'t': 'array', 'dt': dtn, 'v': v}}
+			for v in (0, 3) + ((-1, -4) if dtn[0] == 'i' else ()):
+				yield {'kind': 'index', 'coll': coll, 'n': 4, 'index': {'t': 'npint', 'dt': dtn, 'v': v}}
+	for coll in colls:
+		yield {'kind': 'indexlists', 'coll': coll, 'n': 4 if (tier == 'quick' and coll == 'hdf5') else 5, 'seed': 11, 'dtype': 'u8' if coll == 'array' else None}
 	# narrow index dtypes on collections longer than the dtype's range
 	for coll in ('list', 'array'):
 		for n, dt in ((130, 'i1'), (200, 'i1'), (300, 'u1'), (200, 'i2'), (40000 if tier != 'quick' else 200, 'i2')):
